@@ -44,7 +44,7 @@ func main() {
 			"content equality: byte fields and lists compared by content (nil = empty) - GenHash() equality is demanded separately, which covers the nil/empty distinctions that matter for identity; times compared as instant + zone offset",
 			"fields without a wire representation are outside 'content': Transaction.SocketRequestId (never written by transactionToPb) and GroupHeader.Ready/Work/DismissHeight (not in x.proto) are kept at their zero value in the round-trip domain and only appear in the fixed-point domain",
 			"node-producible header domain: Transactions and EvictedTxs are non-nil (possibly empty) slices; nil slices only under the fixed-point law",
-			"a non-nil Block whose Header is nil (header bytes present but undecodable, no error) is recorded as an outcome, not flagged",
+			"a non-nil Block whose Header is nil with a nil error (Header is a required field, so header bytes were present but undecodable) counts as a nil object: sig C09:nil-object:UnMarshalBlock-header",
 			"error logging of the codecs is silenced through types.VerifSetLogger after the first 257 short strings per parser",
 		},
 		Run: run, Replay: replay,
@@ -52,7 +52,7 @@ func main() {
 			if tier == "thorough" {
 				return 17 * time.Minute
 			}
-			return 60 * time.Second
+			return 100 * time.Second
 		},
 	})
 }
